@@ -34,6 +34,8 @@ def eval_term(t, env):
         return getattr(eval_term(t[1], env), t[2])(*[dec(a) for a in t[3]])
     if k == "const":
         return dec(t[1])
+    if k == "pcall":
+        return FUNC_PREDS[t[1]][1](*[eval_term(a, env) for a in t[2]])
     if k == "subq":
         # an(entity(v, c)) used as a value: the value of v (that c holds is the business of whoever evaluates the term)
         return env[t[1]]
@@ -108,6 +110,11 @@ def cond_vars(c) -> set:
 def term_vars(t) -> set:
     if t[0] == "var":
         return {t[1]}
+    if t[0] == "pcall":
+        s_ = set()
+        for a in t[2]:
+            s_ |= term_vars(a)
+        return s_
     if t[0] == "subq":
         return {t[1]}
     if t[0] == "const":
@@ -170,7 +177,7 @@ def not_under_not(c, under=False) -> bool:
 
 
 def term_has_mapping(t) -> bool:
-    return t[0] in ("attr", "idx", "call", "flat")
+    return t[0] in ("attr", "idx", "call", "flat", "pcall")
 
 
 def chain_len(t) -> int:
@@ -197,6 +204,8 @@ def r_term(t) -> str:
         return repr(dec(t[1]))
     if k == "flat":
         return f"flatten({r_term(t[1])})"
+    if k == "pcall":
+        return f"{t[1]}({', '.join(r_term(a) for a in t[2])})"
     if k == "subq":
         return f"an(entity(v{t[1]}, {r_cond(t[2])}))"
     return str(t)
